@@ -51,7 +51,7 @@ def validate(chk, unit, hp, bp, funcs=None, nvec=400, bufsizes=None, skip=(), co
         for k, (t, n) in enumerate(f.params):
             rt = L.res(t)
             if isinstance(rt, (IntTy, FloatTy)):
-                spec.append(('s', 'i' if isinstance(rt, IntTy) else 'f', L.sizeof(rt)))
+                spec.append(('s', 'i' if isinstance(rt, IntTy) else 'f', L.sizeof(rt), bool(f.signext[k]) if k < len(f.signext) else False))
             elif isinstance(rt, PtrTy):
                 pt = L.res(rt.to)
                 if isinstance(pt, (IntTy, FloatTy)):
@@ -68,8 +68,9 @@ def validate(chk, unit, hp, bp, funcs=None, nvec=400, bufsizes=None, skip=(), co
         if not ok or any(k == 'p' for sp in spec if sp[0] == 'b' for (_, k, _) in sp[1]):
             chk.validation.setdefault('skipped', []).append(fn); continue
         rt = L.res(f.ret)
-        def ctype_scalar(kind, size):
+        def ctype_scalar(kind, size, signed=False):
             if kind == 'f': return ctypes.c_float if size == 4 else ctypes.c_double
+            if signed: return {1: ctypes.c_int8, 2: ctypes.c_int16, 4: ctypes.c_int32, 8: ctypes.c_int64}[size]     # ABI: signext parameters
             return {1: ctypes.c_uint8, 2: ctypes.c_uint16, 4: ctypes.c_uint32, 8: ctypes.c_uint64}[size]
         restype = None
         if isinstance(rt, IntTy): restype = ctype_scalar('i', L.sizeof(rt))
@@ -79,7 +80,7 @@ def validate(chk, unit, hp, bp, funcs=None, nvec=400, bufsizes=None, skip=(), co
         libs = [('gen', gen)] + reals
         for _, lib in libs:
             getattr(lib, fn).restype = restype
-            getattr(lib, fn).argtypes = [ctype_scalar(sp[1], sp[2]) if sp[0] == 's' else ctypes.c_void_p for sp in spec]
+            getattr(lib, fn).argtypes = [ctype_scalar(sp[1], sp[2], sp[3]) if sp[0] == 's' else ctypes.c_void_p for sp in spec]
         nf += 1
         for v in range(nvec):
             mode = v % 5
@@ -90,7 +91,9 @@ def validate(chk, unit, hp, bp, funcs=None, nvec=400, bufsizes=None, skip=(), co
                     if int_ranges and fn in int_ranges and sp[1] == 'i': bits = rng.randint(*int_ranges[fn])
                     if sp[1] == 'f':
                         val = struct.unpack('<f' if sp[2] == 4 else '<d', struct.pack('<I' if sp[2] == 4 else '<Q', bits))[0]
-                    else: val = bits
+                    else:
+                        val = bits
+                        if sp[3] and val >= 1 << (8 * sp[2] - 1): val -= 1 << (8 * sp[2])
                     scal.append(val)
                 else:
                     b = bytearray(sp[2])
